@@ -400,7 +400,7 @@ def serialise_phase(gg, seed, cfg, idx, acc, rng):
     fresh build serialised alone."""
     ns = gg.namespace()
     nt = max(2, min(4, cfg['nthreads']))
-    picks = [i for i in idx if i % 3 == 0][:60]
+    picks = [i for i in idx if i % 3 == 0][:60 if len(idx) < 1000 else 240]
     for rnd in range(0, len(picks), nt * 3):
         batch = picks[rnd:rnd + nt * 3]
         ref, defs = {}, {}
